@@ -41,6 +41,14 @@ Theorem C11_general_all_recipients_agree : forall fb rs,
   forallb (fun r => enc_add_recipient fb (fst r) (snd r)) rs = true ->
   forall r, In r rs -> extract_b64 (fst r) = fb.
 Proof. exact general_b64_consistent. Qed.
+(* decoding a general-serialization token: items are handed out only if ALL signatures agree on b64 (and conversely) *)
+Theorem C11_general_decode_b64_consistent : forall ps, dec_general_consistent ps = true <->
+  (forall p q, In p ps -> In q ps -> extract_b64 p = extract_b64 q).
+Proof. exact (fun ps => conj (dec_general_all_agree ps) (dec_general_complete ps)). Qed.
+(* the pinned tree decoded such a token item by item without complaint (repaired in /repo by a fix: commit) *)
+Theorem C11_general_decode_pinned_refuted : exists ps p q,
+  dec_general_consistent_pinned ps = true /\ In p ps /\ In q ps /\ extract_b64 p <> extract_b64 q.
+Proof. exact dec_general_pinned_refuted. Qed.
 Theorem C11_verify_needs_protected_alg : forall p u,
   verify_headers_ok p u = true <-> exists h, p = Some h /\ h_alg h = true.
 Proof. exact verify_needs_protected_alg. Qed.
@@ -70,3 +78,5 @@ Print Assumptions C11_general_b64_consistent.
 Print Assumptions C11_general_all_recipients_agree.
 Print Assumptions C11_verify_needs_protected_alg.
 Print Assumptions C11_b64_arm_depends_on_crit.
+Print Assumptions C11_general_decode_b64_consistent.
+Print Assumptions C11_general_decode_pinned_refuted.
